@@ -16,7 +16,7 @@ open Py65 Py65.Gen Py65.Spec Py65.Proofs
 
 /-- Opcodes whose handler theorem is not proved yet (the differential check still covers them).
 When this list is empty `C03_partial` is the full property. -/
-def unproved : List Int := [0x26, 0x2a, 0x2e, 0x36, 0x3e, 0x61, 0x65, 0x66, 0x69, 0x6a, 0x6d, 0x6e, 0x71, 0x75, 0x76, 0x79, 0x7d, 0x7e, 0xe1, 0xe5, 0xe9, 0xed, 0xf1, 0xf5, 0xf9, 0xfd]
+def unproved : List Int := []
 
 /-- The full statement of C03: for every documented opcode and every well-formed state (any
 registers, flags, PC, memory contents), one `step()` of the generated model of the real device
@@ -33,6 +33,7 @@ def Statement : Prop :=
 theorem C03_partial (s : St) (hs : WF dev65org16.cfg s) (hw : s.waiting = false)
     (mn : Mn) (mo : Mode) (hd : decode .nmos (s.mem s.pc) = some (mn, mo))
     (hproved : s.mem s.pc ∉ unproved)
+    (hdec : (mn = .ADC ∨ mn = .SBC) → flag s.p bitD = false)
     (hjsr : mn = .JSR → NoSelfOverwriteJSR dev65org16.cfg (afterFetch dev65org16.cfg dev65org16.tbl s)) :
     abs (dev65org16.step s) = Spec.step 16 .nmos (abs s) := by
   have hc : IsDev dev65org16.cfg := Or.inr rfl
@@ -65,21 +66,21 @@ theorem C03_partial (s : St) (hs : WF dev65org16.cfg s) (hw : s.waiting = false)
   · exact step_case _ hc _ .nmos s hs hw _ _ _ _ (fun _ => True) hop hd dev65org16.instruct_21 ((H.h21 _ hc .nmos).toP _) trivial
   · exact step_case _ hc _ .nmos s hs hw _ _ _ _ (fun _ => True) hop hd dev65org16.instruct_24 ((H.h24 _ hc .nmos).toP _) trivial
   · exact step_case _ hc _ .nmos s hs hw _ _ _ _ (fun _ => True) hop hd dev65org16.instruct_25 ((H.h25 _ hc .nmos).toP _) trivial
-  · exact absurd (by decide) hproved
+  · exact step_case _ hc _ .nmos s hs hw _ _ _ _ (fun _ => True) hop hd dev65org16.instruct_26 ((H.h26 _ hc .nmos).toP _) trivial
   · exact step_case _ hc _ .nmos s hs hw _ _ _ _ (fun _ => True) hop hd dev65org16.instruct_28 ((H.h28 _ hc .nmos).toP _) trivial
   · exact step_case _ hc _ .nmos s hs hw _ _ _ _ (fun _ => True) hop hd dev65org16.instruct_29 ((H.h29 _ hc .nmos).toP _) trivial
-  · exact absurd (by decide) hproved
+  · exact step_case _ hc _ .nmos s hs hw _ _ _ _ (fun _ => True) hop hd dev65org16.instruct_2a ((H.h2a _ hc .nmos).toP _) trivial
   · exact step_case _ hc _ .nmos s hs hw _ _ _ _ (fun _ => True) hop hd dev65org16.instruct_2c ((H.h2c _ hc .nmos).toP _) trivial
   · exact step_case _ hc _ .nmos s hs hw _ _ _ _ (fun _ => True) hop hd dev65org16.instruct_2d ((H.h2d _ hc .nmos).toP _) trivial
-  · exact absurd (by decide) hproved
+  · exact step_case _ hc _ .nmos s hs hw _ _ _ _ (fun _ => True) hop hd dev65org16.instruct_2e ((H.h2e _ hc .nmos).toP _) trivial
   · exact step_case _ hc _ .nmos s hs hw _ _ _ _ (fun _ => True) hop hd dev65org16.instruct_30 ((H.h30 _ hc .nmos).toP _) trivial
   · exact step_case _ hc _ .nmos s hs hw _ _ _ _ (fun _ => True) hop hd dev65org16.instruct_31 ((H.h31 _ hc .nmos).toP _) trivial
   · exact step_case _ hc _ .nmos s hs hw _ _ _ _ (fun _ => True) hop hd dev65org16.instruct_35 ((H.h35 _ hc .nmos).toP _) trivial
-  · exact absurd (by decide) hproved
+  · exact step_case _ hc _ .nmos s hs hw _ _ _ _ (fun _ => True) hop hd dev65org16.instruct_36 ((H.h36 _ hc .nmos).toP _) trivial
   · exact step_case _ hc _ .nmos s hs hw _ _ _ _ (fun _ => True) hop hd dev65org16.instruct_38 ((H.h38 _ hc .nmos).toP _) trivial
   · exact step_case _ hc _ .nmos s hs hw _ _ _ _ (fun _ => True) hop hd dev65org16.instruct_39 ((H.h39 _ hc .nmos).toP _) trivial
   · exact step_case _ hc _ .nmos s hs hw _ _ _ _ (fun _ => True) hop hd dev65org16.instruct_3d ((H.h3d _ hc .nmos).toP _) trivial
-  · exact absurd (by decide) hproved
+  · exact step_case _ hc _ .nmos s hs hw _ _ _ _ (fun _ => True) hop hd dev65org16.instruct_3e ((H.h3e _ hc .nmos).toP _) trivial
   · exact step_case _ hc _ .nmos s hs hw _ _ _ _ (fun _ => True) hop hd dev65org16.instruct_40 ((H.h40 _ hc .nmos).toP _) trivial
   · exact step_case _ hc _ .nmos s hs hw _ _ _ _ (fun _ => True) hop hd dev65org16.instruct_41 ((H.h41 _ hc .nmos).toP _) trivial
   · exact step_case _ hc _ .nmos s hs hw _ _ _ _ (fun _ => True) hop hd dev65org16.instruct_45 ((H.h45 _ hc .nmos).toP _) trivial
@@ -99,23 +100,23 @@ theorem C03_partial (s : St) (hs : WF dev65org16.cfg s) (hw : s.waiting = false)
   · exact step_case _ hc _ .nmos s hs hw _ _ _ _ (fun _ => True) hop hd dev65org16.instruct_5d ((H.h5d _ hc .nmos).toP _) trivial
   · exact step_case _ hc _ .nmos s hs hw _ _ _ _ (fun _ => True) hop hd dev65org16.instruct_5e ((H.h5e _ hc .nmos).toP _) trivial
   · exact step_case _ hc _ .nmos s hs hw _ _ _ _ (fun _ => True) hop hd dev65org16.instruct_60 ((H.h60 _ hc .nmos).toP _) trivial
-  · exact absurd (by decide) hproved
-  · exact absurd (by decide) hproved
-  · exact absurd (by decide) hproved
+  · exact step_case _ hc _ .nmos s hs hw _ _ _ _ _ hop hd dev65org16.instruct_61 (H.h61 _ hc .nmos) (hdec (Or.inl rfl))
+  · exact step_case _ hc _ .nmos s hs hw _ _ _ _ _ hop hd dev65org16.instruct_65 (H.h65 _ hc .nmos) (hdec (Or.inl rfl))
+  · exact step_case _ hc _ .nmos s hs hw _ _ _ _ (fun _ => True) hop hd dev65org16.instruct_66 ((H.h66 _ hc .nmos).toP _) trivial
   · exact step_case _ hc _ .nmos s hs hw _ _ _ _ (fun _ => True) hop hd dev65org16.instruct_68 ((H.h68 _ hc .nmos).toP _) trivial
-  · exact absurd (by decide) hproved
-  · exact absurd (by decide) hproved
+  · exact step_case _ hc _ .nmos s hs hw _ _ _ _ _ hop hd dev65org16.instruct_69 (H.h69 _ hc .nmos) (hdec (Or.inl rfl))
+  · exact step_case _ hc _ .nmos s hs hw _ _ _ _ (fun _ => True) hop hd dev65org16.instruct_6a ((H.h6a _ hc .nmos).toP _) trivial
   · exact step_case _ hc _ .nmos s hs hw _ _ _ _ (fun _ => True) hop hd dev65org16.instruct_6c ((H.h6c _ hc).toP _) trivial
-  · exact absurd (by decide) hproved
-  · exact absurd (by decide) hproved
+  · exact step_case _ hc _ .nmos s hs hw _ _ _ _ _ hop hd dev65org16.instruct_6d (H.h6d _ hc .nmos) (hdec (Or.inl rfl))
+  · exact step_case _ hc _ .nmos s hs hw _ _ _ _ (fun _ => True) hop hd dev65org16.instruct_6e ((H.h6e _ hc .nmos).toP _) trivial
   · exact step_case _ hc _ .nmos s hs hw _ _ _ _ (fun _ => True) hop hd dev65org16.instruct_70 ((H.h70 _ hc .nmos).toP _) trivial
-  · exact absurd (by decide) hproved
-  · exact absurd (by decide) hproved
-  · exact absurd (by decide) hproved
+  · exact step_case _ hc _ .nmos s hs hw _ _ _ _ _ hop hd dev65org16.instruct_71 (H.h71 _ hc .nmos) (hdec (Or.inl rfl))
+  · exact step_case _ hc _ .nmos s hs hw _ _ _ _ _ hop hd dev65org16.instruct_75 (H.h75 _ hc .nmos) (hdec (Or.inl rfl))
+  · exact step_case _ hc _ .nmos s hs hw _ _ _ _ (fun _ => True) hop hd dev65org16.instruct_76 ((H.h76 _ hc .nmos).toP _) trivial
   · exact step_case _ hc _ .nmos s hs hw _ _ _ _ (fun _ => True) hop hd dev65org16.instruct_78 ((H.h78 _ hc .nmos).toP _) trivial
-  · exact absurd (by decide) hproved
-  · exact absurd (by decide) hproved
-  · exact absurd (by decide) hproved
+  · exact step_case _ hc _ .nmos s hs hw _ _ _ _ _ hop hd dev65org16.instruct_79 (H.h79 _ hc .nmos) (hdec (Or.inl rfl))
+  · exact step_case _ hc _ .nmos s hs hw _ _ _ _ _ hop hd dev65org16.instruct_7d (H.h7d _ hc .nmos) (hdec (Or.inl rfl))
+  · exact step_case _ hc _ .nmos s hs hw _ _ _ _ (fun _ => True) hop hd dev65org16.instruct_7e ((H.h7e _ hc .nmos).toP _) trivial
   · exact step_case _ hc _ .nmos s hs hw _ _ _ _ (fun _ => True) hop hd dev65org16.instruct_81 ((H.h81 _ hc .nmos).toP _) trivial
   · exact step_case _ hc _ .nmos s hs hw _ _ _ _ (fun _ => True) hop hd dev65org16.instruct_84 ((H.h84 _ hc .nmos).toP _) trivial
   · exact step_case _ hc _ .nmos s hs hw _ _ _ _ (fun _ => True) hop hd dev65org16.instruct_85 ((H.h85 _ hc .nmos).toP _) trivial
@@ -177,24 +178,28 @@ theorem C03_partial (s : St) (hs : WF dev65org16.cfg s) (hw : s.waiting = false)
   · exact step_case _ hc _ .nmos s hs hw _ _ _ _ (fun _ => True) hop hd dev65org16.instruct_dd ((H.hdd _ hc .nmos).toP _) trivial
   · exact step_case _ hc _ .nmos s hs hw _ _ _ _ (fun _ => True) hop hd dev65org16.instruct_de ((H.hde _ hc .nmos).toP _) trivial
   · exact step_case _ hc _ .nmos s hs hw _ _ _ _ (fun _ => True) hop hd dev65org16.instruct_e0 ((H.he0 _ hc .nmos).toP _) trivial
-  · exact absurd (by decide) hproved
+  · exact step_case _ hc _ .nmos s hs hw _ _ _ _ _ hop hd dev65org16.instruct_e1 (H.he1 _ hc .nmos) (hdec (Or.inr rfl))
   · exact step_case _ hc _ .nmos s hs hw _ _ _ _ (fun _ => True) hop hd dev65org16.instruct_e4 ((H.he4 _ hc .nmos).toP _) trivial
-  · exact absurd (by decide) hproved
+  · exact step_case _ hc _ .nmos s hs hw _ _ _ _ _ hop hd dev65org16.instruct_e5 (H.he5 _ hc .nmos) (hdec (Or.inr rfl))
   · exact step_case _ hc _ .nmos s hs hw _ _ _ _ (fun _ => True) hop hd dev65org16.instruct_e6 ((H.he6 _ hc .nmos).toP _) trivial
   · exact step_case _ hc _ .nmos s hs hw _ _ _ _ (fun _ => True) hop hd dev65org16.instruct_e8 ((H.he8 _ hc .nmos).toP _) trivial
-  · exact absurd (by decide) hproved
+  · exact step_case _ hc _ .nmos s hs hw _ _ _ _ _ hop hd dev65org16.instruct_e9 (H.he9 _ hc .nmos) (hdec (Or.inr rfl))
   · exact step_case _ hc _ .nmos s hs hw _ _ _ _ (fun _ => True) hop hd dev65org16.instruct_ea ((H.hea _ hc .nmos).toP _) trivial
   · exact step_case _ hc _ .nmos s hs hw _ _ _ _ (fun _ => True) hop hd dev65org16.instruct_ec ((H.hec _ hc .nmos).toP _) trivial
-  · exact absurd (by decide) hproved
+  · exact step_case _ hc _ .nmos s hs hw _ _ _ _ _ hop hd dev65org16.instruct_ed (H.hed _ hc .nmos) (hdec (Or.inr rfl))
   · exact step_case _ hc _ .nmos s hs hw _ _ _ _ (fun _ => True) hop hd dev65org16.instruct_ee ((H.hee _ hc .nmos).toP _) trivial
   · exact step_case _ hc _ .nmos s hs hw _ _ _ _ (fun _ => True) hop hd dev65org16.instruct_f0 ((H.hf0 _ hc .nmos).toP _) trivial
-  · exact absurd (by decide) hproved
-  · exact absurd (by decide) hproved
+  · exact step_case _ hc _ .nmos s hs hw _ _ _ _ _ hop hd dev65org16.instruct_f1 (H.hf1 _ hc .nmos) (hdec (Or.inr rfl))
+  · exact step_case _ hc _ .nmos s hs hw _ _ _ _ _ hop hd dev65org16.instruct_f5 (H.hf5 _ hc .nmos) (hdec (Or.inr rfl))
   · exact step_case _ hc _ .nmos s hs hw _ _ _ _ (fun _ => True) hop hd dev65org16.instruct_f6 ((H.hf6 _ hc .nmos).toP _) trivial
   · exact step_case _ hc _ .nmos s hs hw _ _ _ _ (fun _ => True) hop hd dev65org16.instruct_f8 ((H.hf8 _ hc .nmos).toP _) trivial
-  · exact absurd (by decide) hproved
-  · exact absurd (by decide) hproved
+  · exact step_case _ hc _ .nmos s hs hw _ _ _ _ _ hop hd dev65org16.instruct_f9 (H.hf9 _ hc .nmos) (hdec (Or.inr rfl))
+  · exact step_case _ hc _ .nmos s hs hw _ _ _ _ _ hop hd dev65org16.instruct_fd (H.hfd _ hc .nmos) (hdec (Or.inr rfl))
   · exact step_case _ hc _ .nmos s hs hw _ _ _ _ (fun _ => True) hop hd dev65org16.instruct_fe ((H.hfe _ hc .nmos).toP _) trivial
+
+/-- C03 in full: `unproved` is empty, so the partial theorem is the statement. -/
+theorem C03_full : Statement := fun s hs hw mn mo hd hdec hjsr =>
+  C03_partial s hs hw mn mo hd (by simp [unproved]) hdec hjsr
 
 /-- Non-vacuity: a concrete well-formed state executing LDA #$80 satisfies every hypothesis. -/
 example : ∃ s : St, WF dev65org16.cfg s ∧ s.waiting = false ∧
